@@ -413,7 +413,14 @@ func BuildOps(r *fw.Rand, n int) []Op {
 				}
 				img := grayFromBools(sym.Matrix, scale, 4)
 				bmp, _ := gozxing.NewBinaryBitmapFromImage(img)
-				res, err := aztec.NewAztecReader().Decode(bmp, nil)
+				var ah map[gozxing.DecodeHintType]interface{}
+				switch rr.Intn(4) {
+				case 0: // decode hints of the kinds applications pass to every reader
+					ah = map[gozxing.DecodeHintType]interface{}{gozxing.DecodeHintType_CHARACTER_SET: []string{"ISO-8859-5", "UTF-8", "Shift_JIS", "windows-1251"}[rr.Intn(4)], gozxing.DecodeHintType_TRY_HARDER: true}
+				case 1:
+					ah = SharedHints
+				}
+				res, err := aztec.NewAztecReader().Decode(bmp, ah)
 				if err != nil {
 					return fmt.Sprintf("aztec %v ERR %T", spec, err)
 				}
